@@ -6,10 +6,10 @@ import itertools
 import re
 
 from ..core import Check, classify_exc
-from ..g import g_list, g_str
+from ..g import g_Z, g_list, g_str
 from . import c12
 
-IMPORTS = "PyPrims Cond CondPrint CondParen StrLit TagTree"
+IMPORTS = "PyPrims Cond CondPrint CondParen StrLit TagTree PathSyntax"
 
 _ENV = None
 
@@ -228,6 +228,77 @@ def gen_strings(ck):
             if "}}" in s or "%}" in s:  # would close the output statement: not a string literal any more
                 continue
             yield s
+
+
+# ------------------------------------------------------------------ layer E: paths
+PATH_NAMES = ["a", "k", "d", "a b", "it's", "X", "", "1x", "a-b", "é", "size", "x"]
+PATH_TOK = re.compile(r"\[\s*(?P<idx>-?\d+)\s*\]|\[\s*(?P<q>[\"'])(?P<str>.*?)(?P=q)\s*\]|(?P<lb>\[)|(?P<rb>\])|(?P<dot>\.)|(?P<word>[\w-]+\??)", re.S)
+
+
+def gen_paths(ck):
+    rng = ck.rng
+
+    def seg(d):
+        r = rng.random()
+        if r < 0.6 or d == 0:
+            return ("name", rng.choice(PATH_NAMES))
+        if r < 0.8:
+            return ("idx", rng.choice([0, 1, -1, 10]))
+        return ("nested", path(d - 1))
+
+    def path(d):
+        return [seg(d) for _ in range(rng.randrange(1, 4))]
+
+    for n1 in PATH_NAMES:                       # every name as root, alone and followed by every name
+        yield [("name", n1)]
+        for n2 in PATH_NAMES:
+            yield [("name", n1), ("name", n2)]
+            yield [("nested", [("name", n1)]), ("name", n2)]
+    for _ in range(300 if ck.quick else 3000):
+        yield path(2)
+
+
+def path_source(p, rng, first=True):
+    out = []
+    for i, (k, v) in enumerate(p):
+        if k == "name":
+            plain = re.fullmatch(r"[a-zA-Z_\u0080-\uffff][\w-]*", v) is not None
+            if plain and rng.random() < 0.7:
+                out.append(v if (first and i == 0) else "." + v)
+            else:
+                q = '"' if "'" in v else "'"
+                out.append("[" + q + v + q + "]")
+        elif k == "idx":
+            out.append(f"[{v}]")
+        else:
+            out.append("[" + path_source(v, rng) + "]")
+    return "".join(out)
+
+
+def g_path(p):
+    return g_list(f"SName {g_str(v)}" if k == "name" else f"SIdx {g_Z(v)}" if k == "idx" else f"SNested {g_path(v)}" for k, v in p)
+
+
+def path_tokens(text):
+    out, pos = [], 0
+    while pos < len(text):
+        m = PATH_TOK.match(text, pos)
+        if not m:
+            return None
+        pos = m.end()
+        if m.group("idx") is not None:
+            out.append(f"PIdentIdx {g_Z(int(m.group('idx')))}")
+        elif m.group("str") is not None:
+            out.append(f"PIdentStr {g_str(m.group('str'))}")
+        elif m.group("lb"):
+            out.append("PLBr")
+        elif m.group("rb"):
+            out.append("PRBr")
+        elif m.group("dot"):
+            out.append("PDot")
+        else:
+            out.append(f"PWord {g_str(m.group('word'))}")
+    return out
 
 
 # ------------------------------------------------------------------ layer C: tag structure
@@ -543,9 +614,9 @@ def run(ck: Check) -> None:
         "A: every and/or/not chain of <=3 (quick) / <=4 atoms with every single parenthesisation + seeded random condition trees "
         "(depth<=3/4, comparisons with parenthesised operands, empty/blank) inside {% if %}; B: every string value of length <=3/4 over "
         "{a space ' \" \\ newline { % } n e-acute} (not both quotes) as a literal in an output statement; C: every block and inline tag alone "
-        "and nested, plus seeded random tag trees (depth<=2/3) with raw/comment/text/output; D: seeded random rich templates (filters, ternaries, "
+        "and nested, plus seeded random tag trees (depth<=2/3) with raw/comment/text/output; E: every pair of names from a pool with awkward spellings as root/second segment, bare and bracketed, plus seeded random paths with indexes and nested paths; D: seeded random rich templates (filters, ternaries, "
         "bracketed/quoted/nested paths, ranges, whitespace control, liquid tag, include/render). Every case is checked on the implementation "
-        "(str() parses; renders equal on 4 data sets; str of the re-parse is the same text); A-C are also evaluated in the Coq model. "
+        "(str() parses; renders equal on 4 data sets; str of the re-parse is the same text); A-C and E are also evaluated in the Coq model. "
         "Non-trivial = the original source parses; distinct = distinct source."
     )
     ck.exhaustive = True
@@ -631,6 +702,32 @@ def run(ck: Check) -> None:
         src, s = meta[i]
         ck.violation("correspondence", "c04-string-literal-correspondence", f"model StrLit.quote_string and str() disagree on {src!r}: str() = {s!r}",
                      {"type": "roundtrip", "template": src, "str": s, "broken": "correspondence StrLit.run_quote ~ StringLiteral.__str__ (theorem C04_string_literal_roundtrip)"}, no_input=True)
+
+    # ---- E
+    cases, expected, meta = [], [], []
+    paths = list(gen_paths(ck))
+    srcs = ["{{ " + path_source(p, ck.rng) + " }}" for p in paths]
+    for pth, src, (r, s) in zip(paths, srcs, batch(srcs)):
+        ck.note_case(("path", src), nontrivial=not (r and r[0] == "orig-rejected"))
+        ck.count("E.paths")
+        if r:
+            report(ck, src, r, "E", counter)
+            if r[0] == "orig-rejected":
+                continue
+        ptoks = path_tokens(s[3:-3]) if s.startswith("{{ ") and s.endswith(" }}") else None
+        if ptoks is None:
+            continue
+        cases.append("{| pth := " + g_path(pth) + " |}")
+        expected.append(g_list(ptoks))
+        meta.append((src, s))
+    mm = ck.coq_mismatches("path", IMPORTS, "run_path", "list_eqb ptok_eqb", "pathcase", "list ptok", cases, expected, chunk=500)
+    ck.traces += len(cases)
+    for i in mm[:3]:
+        src, s = meta[i]
+        model = ck.coq_eval(IMPORTS, [f"run_path ({cases[i]})"])[0]
+        ck.violation("correspondence", "c04-path-correspondence", f"model PathSyntax.print_path and str() disagree on {src!r}: str() = {s!r}",
+                     {"type": "roundtrip", "template": src, "str": s, "model": model[:1500],
+                      "broken": "correspondence PathSyntax.run_path ~ Path.__str__ (theorem C04_path_roundtrip)"}, no_input=True)
 
     # ---- C
     cases, expected, meta = [], [], []
